@@ -7,6 +7,8 @@ from typing import Any, Dict, List
 from .. import ctl, programs
 from ..ctl import ProcessState
 
+from ._common import process_comms_text_key as _text_key  # noqa: E402
+
 ID = 'C04'
 KILL_TEXTS = ('t1', 't2')
 
@@ -82,7 +84,7 @@ class Oracle:
                 if program_has_killcmd:
                     texts.add(programs.KILLCMD_TEXT)
                 msg = proc.killed_msg()
-                text = msg.get('message') if isinstance(msg, dict) else msg
+                text = msg.get(_text_key()) if isinstance(msg, dict) else msg
                 cancelled = any(r['op'] == 'cancel' for r in calls)  # (no text is laid down for a kill through the future)
                 if text not in texts and not cancelled:
                     w.violate('d:kill-text', features(w, first or calls[0] if calls else None, text=repr(text)), None)
